@@ -18,6 +18,7 @@ import (
 	"iter"
 	"os"
 	"path/filepath"
+	"reflect"
 	"sort"
 	"strings"
 	"sync"
@@ -188,31 +189,31 @@ type c14MergeRec struct {
 }
 
 type c14Run struct {
-	c       *Ctx
-	fsMeta  bool
-	sched   *c14Sched
-	dir     string
-	data    *bs.FileSystemDataStore
-	mem     *bs.MemoryMetaStore
-	mu      sync.Mutex // mirror state (only touched by the baton holder, but be safe)
-	files   []*c14File
-	byPtr   map[string]int
-	meta    []int // MemoryMetaStore content in the model's order
-	queries []*c14Query
-	acked   map[int]bool
-	ingest  map[int]bool
+	c         *Ctx
+	fsMeta    bool
+	sched     *c14Sched
+	dir       string
+	data      *bs.FileSystemDataStore
+	mem       *bs.MemoryMetaStore
+	mu        sync.Mutex // mirror state (only touched by the baton holder, but be safe)
+	files     []*c14File
+	byPtr     map[string]int
+	meta      []int // MemoryMetaStore content in the model's order
+	queries   []*c14Query
+	acked     map[int]bool
+	ingest    map[int]bool
 	flushRows []int
 	flushFile int
-	merge   *c14MergeRec
-	merges  []*c14MergeRec
+	merge     *c14MergeRec
+	merges    []*c14MergeRec
 	mergeCand []int
-	scanMu  sync.Mutex
-	scanQ   *c14Query
-	scanGid int64
-	scanOpen bool   // a scan step (list or parse) holds the baton
-	scanKind string
-	scanFile int
-	bad     []string
+	scanMu    sync.Mutex
+	scanQ     *c14Query
+	scanGid   int64
+	scanOpen  bool // a scan step (list or parse) holds the baton
+	scanKind  string
+	scanFile  int
+	bad       []string
 
 	ingMu       sync.Mutex
 	ingested    []int       // rows whose IngestRows call has returned, in order
@@ -749,8 +750,103 @@ func runC14(c *Ctx) {
 	}
 }
 
+// c14CommittedMetadataStable: what a flush committed to the MemoryMetaStore for a file stays what it is while
+// the engine goes on ingesting and flushing (the engine recycles a good deal of its per-flush state). After each
+// of a few flushes: the block ranges of every earlier file are the ones recorded at its commit, and a query
+// whose prefilter selects exactly the first file's ids returns exactly its rows.
+func c14CommittedMetadataStable(c *Ctx, idx int) {
+	ctx := context.Background()
+	cfg := bs.DefaultBloomSearchEngineConfig()
+	cfg.MaxBufferedTime = time.Hour
+	cfg.MinMaxIndexes = []string{"id"}
+	usePart := idx%2 == 1
+	if usePart {
+		cfg.PartitionFunc = func(row map[string]any) string { p, _ := row["p"].(string); return p }
+	}
+	meta := bs.NewMemoryMetaStore()
+	eng, err := bs.NewBloomSearchEngine(cfg, meta, newMemDataStore())
+	must(err)
+	eng.Start()
+	defer func() {
+		sctx, cancel := context.WithTimeout(ctx, 30*time.Second)
+		eng.Stop(sctx)
+		cancel()
+	}()
+	type committed struct {
+		ranges map[string]bs.MinMaxIndex // partition -> range of "id"
+	}
+	at := map[string]committed{}
+	next := 0
+	var firstLo, firstHi int
+	for round := 0; round < 3+c.intn(3); round++ {
+		n := 2 + c.intn(4)
+		batch := make([]map[string]any, n)
+		lo := next
+		for j := range batch {
+			batch[j] = map[string]any{"id": next, "p": []string{"pa", "pb"}[j%2]}
+			next++
+		}
+		if round == 0 {
+			firstLo, firstHi = lo, next-1
+		}
+		done := make(chan error, 1)
+		must(eng.IngestRows(ctx, batch, done))
+		if round%2 == 1 {
+			// rows of the next flush are already buffered when the checks below run
+			must(eng.IngestRows(ctx, []map[string]any{{"id": 100000 + next, "p": "pa"}}, nil))
+		}
+		must(eng.Flush(ctx))
+		must(<-done)
+		desc := map[string]any{"kind": "committed-metadata-stable", "round": round, "partitioned": usePart}
+		for f, err := range meta.GetMaybeFilesForQuery(ctx, nil) {
+			must(err)
+			cur := map[string]bs.MinMaxIndex{}
+			for _, b := range f.Metadata.DataBlocks {
+				if r, ok := b.MinMaxIndexes["id"]; ok {
+					cur[b.PartitionID] = r
+				} else {
+					cur[b.PartitionID] = bs.MinMaxIndex{Min: 1, Max: 0} // marks "no range recorded"
+				}
+			}
+			was, seen := at[string(f.PointerBytes)]
+			if !seen {
+				at[string(f.PointerBytes)] = committed{ranges: cur}
+				continue
+			}
+			if !reflect.DeepEqual(was.ranges, cur) {
+				c.violation("c14-committed-metadata-changed", fmt.Sprintf("the block ranges the MemoryMetaStore holds for a committed file changed after its commit: %v, now %v", was.ranges, cur), desc)
+			}
+		}
+		pf := bs.MinMax("id", bs.NumericBetween(int64(firstLo), int64(firstHi)))
+		res, err := eng.Query(ctx, bs.NewQuery().MatchPrefilter(pf).Build())
+		must(err)
+		got := map[int]int{}
+		for res.Next() {
+			if id, ok := res.Row()["id"].(float64); ok {
+				got[int(id)]++
+			}
+		}
+		qerr := res.Err()
+		res.Close()
+		missing := 0
+		for id := firstLo; id <= firstHi; id++ {
+			if got[id] != 1 {
+				missing++
+			}
+		}
+		c.count([]string{"C14"}, fmt.Sprintf("committed-stable-%d-%d", idx, round), round > 0, desc)
+		if qerr == nil && missing > 0 {
+			c.violation("c14-acked-rows-omitted", fmt.Sprintf("after %d more flushes a query (nil error) whose prefilter selects the first file's ids %d..%d misses %d of its acknowledged rows", round, firstLo, firstHi, missing), desc)
+		}
+	}
+	c.dist("c14_committed_metadata_probe", fmt.Sprintf("partitioned=%v", usePart))
+}
+
 // c14MemProbes: the snapshot of MemoryMetaStore is one atomic step.
 func c14MemProbes(c *Ctx) {
+	for i := 0; i < c.pick(6, 30); i++ {
+		c14CommittedMetadataStable(c, i)
+	}
 	ctx := context.Background()
 	mk := func(i int) ([]byte, *bs.FileMetadata) {
 		return []byte(fmt.Sprintf("p%d", i)), &bs.FileMetadata{DataBlocks: []bs.DataBlockMetadata{{Rows: i + 1}}}
